@@ -2,5 +2,6 @@ SPECIFICATION Spec
 CONSTANTS
   MaxTok = 1
   Mode = "comment"
+  Depth = 0
 INVARIANT GenInv
 CHECK_DEADLOCK FALSE
